@@ -855,7 +855,8 @@ struct Driver {
       if (s.kind != 2) return;
       Error e;
       { Armed a; g_munmap_failable = true; e = VirtMem::release_dual_mapping(s.dm, s.n); g_munmap_failable = false; }
-      if (e == Error::kOk) s = Slot{};
+      // after a failure the state of dm is unspecified (one view may be gone while dm still names it): the handle is abandoned
+      if (e == Error::kOk) s = Slot{}; else s.kind = 4;
     }
     else if (o == "jit") { Armed a; VirtMem::protect_jit_memory(op["acc"].s() == "RW" ? VirtMem::ProtectJitAccess::kReadWrite : VirtMem::ProtectJitAccess::kReadExecute); }
     else if (o == "scope") {
